@@ -74,6 +74,22 @@ func firstDiff(a, b string) (string, string) {
 	return "", ""
 }
 
+var reTypeDef = regexp.MustCompile(`^%\S+ = type `)
+
+// sortTypeDefs sorts the type-definition lines of a module text.
+func sortTypeDefs(text string) string {
+	var defs, rest []string
+	for _, l := range strings.Split(text, "\n") {
+		if reTypeDef.MatchString(l) {
+			defs = append(defs, l)
+		} else {
+			rest = append(rest, l)
+		}
+	}
+	sort.Strings(defs)
+	return strings.Join(append(defs, rest...), "\n")
+}
+
 func opcodeOf(line string) string {
 	line = strings.TrimSpace(line)
 	if strings.HasPrefix(line, "@") {
@@ -124,7 +140,7 @@ func offendingLine(text, diag string) string {
 }
 
 var reDefType = regexp.MustCompile(`'(%[^']+)' defined with type '([^']+)' but expected '([^']+)'`)
-var reDigits = regexp.MustCompile(`\d+`)
+var reDigits = regexp.MustCompile(`\b\d+ x |\(\d+\)`)
 
 // wrongResultType recognises LLVM's "defined with type A but expected B" and names the opcode of the
 // defining instruction; numbers in the types are abstracted.
@@ -136,7 +152,15 @@ func wrongResultType(text, diag string) (def, llvmTy, libTy string, ok bool) {
 	for _, l := range strings.Split(text, "\n") {
 		l = strings.TrimSpace(l)
 		if strings.HasPrefix(l, m[1]+" = ") {
-			return opcodeOf(l), reDigits.ReplaceAllString(m[2], "N"), reDigits.ReplaceAllString(m[3], "N"), true
+			abs := func(t string) string {
+				return reDigits.ReplaceAllStringFunc(t, func(x string) string {
+					if strings.HasPrefix(x, "(") {
+						return "(N)"
+					}
+					return "N x "
+				})
+			}
+			return opcodeOf(l), abs(m[2]), abs(m[3]), true
 		}
 	}
 	return "", "", "", false
@@ -216,8 +240,9 @@ func evaluate(tabs *schema.Tables, p *schema.Prog, full bool) (o outcome) {
 			o.what = fmt.Sprintf("printing the re-parsed module of program %s panics: %s", p.ID, mbt.Truncate(msg, 300))
 			return
 		}
-		if again != o.libText {
-			x, y := firstDiff(o.libText, again)
+		// the order of type definitions carries no meaning (the parser sorts them, a builder keeps call order)
+		if sortTypeDefs(again) != sortTypeDefs(o.libText) {
+			x, y := firstDiff(sortTypeDefs(o.libText), sortTypeDefs(again))
 			o.sig = "C03|reparse|" + subject(p, x) + "|reprint-differs"
 			o.what = fmt.Sprintf("re-parsing and re-printing program %s changes the text:\n  printed:    %s\n  re-printed: %s", p.ID, x, y)
 			return
